@@ -3,121 +3,336 @@
 package decoder
 
 import (
+	"context"
 	"fmt"
+	"os"
 	"strings"
+	"sync"
 	"testing"
+	"time"
 
+	"github.com/kafscale/platform/addons/processors/sql-processor/internal/config"
 	"github.com/kafscale/platform/addons/processors/sql-processor/internal/verifc07"
 	"github.com/kafscale/platform/addons/processors/sql-processor/internal/verifkit"
 )
 
-// TestVerifC07SQL is stage 2 for the SQL processor: the real decodeSegment
-// over every broker-written segment of the corpus, compared record by record and
-// field by field with what the producers sent.
+// c07SegRef is one broker-written segment of the corpus with the records the producers sent into it.
+type c07SegRef struct {
+	c    *verifc07.Case
+	si   int
+	s    verifc07.Seg
+	want []verifc07.Rec
+	seg  []byte
+}
+
+func (x *c07SegRef) id() string { return fmt.Sprintf("%d/%d", x.c.ID, x.si) }
+
+// c07Finding is one deviation found by c07Judge; key identifies it inside its segment
+// (class + record index) so that a later stage does not report the same deviation again.
+type c07Finding struct {
+	class, summary, key string
+	replay              map[string]any
+}
+
+// c07Held is what a consumer such as the SQL server's JOIN path keeps: the slice Decode returned.
+type c07Held struct {
+	sr    *c07SegRef
+	got   []Record
+	err   error
+	callN int // number of the Decode call that returned it (per stage)
+}
+
+func c07Replay(sr *c07SegRef, seed int64, tier, via string) map[string]any {
+	rp := map[string]any{"case": sr.c.ID, "segment_key": sr.s.Key, "segment_file": sr.s.File, "records_sent": len(sr.want), "seed": seed, "tier": tier, "via": via}
+	if len(sr.seg) <= 2048 {
+		rp["segment_bytes"] = sr.seg // base64 in the witness: self-contained for small segments
+	}
+	return rp
+}
+
+func c07With(base map[string]any, kv ...any) map[string]any {
+	rp := map[string]any{}
+	for k, v := range base {
+		rp[k] = v
+	}
+	for i := 0; i+1 < len(kv); i += 2 {
+		rp[kv[i].(string)] = kv[i+1]
+	}
+	return rp
+}
+
+// c07Judge compares what a decode entry point returned for one segment with what the
+// producers sent: the oracle of the statement ("recover exactly the records the producers
+// sent: offsets, timestamps, keys, values and headers"). It only reads got.
+func c07Judge(sr *c07SegRef, got []Record, derr error, replay map[string]any) (fs []c07Finding, compared int) {
+	want := sr.want
+	key := sr.s.Key
+	if derr != nil {
+		// narrow class for the defect DESIGN.md predicts (timestamp delta read as a 5-byte int32 varint): the segment holds a
+		// delta whose zig-zag varint needs more than 5 bytes AND the decoder says so; anything else is a different class
+		var over *verifc07.Rec
+		for i := range want {
+			if d := want[i].TsDelta; d >= 1<<34 || d < -(1<<34) {
+				over = &want[i]
+				break
+			}
+		}
+		if over != nil && strings.Contains(derr.Error(), "varint too long") {
+			fs = append(fs, c07Finding{"sql_ts_delta_over_5_byte_varint_segment_rejected", fmt.Sprintf("%s: decodeSegment rejects the whole segment (%d records): %v; record at offset %d has timestamp delta %d", key, len(want), derr, over.Offset, over.TsDelta),
+				"rejected", c07With(replay, "sent", verifc07.Brief(*over), "error", derr.Error())})
+		} else {
+			fs = append(fs, c07Finding{"sql_decode_error_on_valid_segment", fmt.Sprintf("%s: decoding failed on a broker-written segment of %d well-formed records: %v", key, len(want), derr), "error", c07With(replay, "error", derr.Error())})
+		}
+		return fs, 0
+	}
+	if len(got) != len(want) {
+		return append(fs, c07Finding{"sql_record_count", fmt.Sprintf("%s: decoded %d records, producers sent %d", key, len(got), len(want)), "count", replay}), 0
+	}
+	for i, w := range want {
+		g := verifc07.Got{Offset: got[i].Offset, Timestamp: got[i].Timestamp, Key: got[i].Key, Value: got[i].Value}
+		for _, h := range got[i].Headers {
+			g.Headers = append(g.Headers, verifc07.GotHdr{Key: h.Key, Value: h.Value})
+		}
+		f, d := verifc07.Compare(w, g)
+		if f == "timestamp" && (w.TsDelta >= 1<<30 || w.TsDelta < -(1<<30)) {
+			// predicted defect, narrow class: only the timestamp is wrong and the delta does not fit a zig-zag int32
+			fs = append(fs, c07Finding{"sql_ts_delta_beyond_int32_varint_garbled", key + ": " + d, fmt.Sprintf("ts/%d", i), c07With(replay, "sent", verifc07.Brief(w), "record_index", i, "decoded_timestamp", g.Timestamp)})
+			g.Timestamp = w.Timestamp // keep judging the other fields of this and the following records
+			f, d = verifc07.Compare(w, g)
+		}
+		if f != "" {
+			return append(fs, c07Finding{"sql_" + f, key + ": " + d, fmt.Sprintf("%s/%d", f, i), c07With(replay, "sent", verifc07.Brief(w), "record_index", i)}), compared
+		}
+		if got[i].Topic != sr.c.Topic || got[i].Partition != sr.c.Partition {
+			return append(fs, c07Finding{"sql_topic_partition", fmt.Sprintf("%s: record labelled %s/%d", key, got[i].Topic, got[i].Partition), fmt.Sprintf("label/%d", i), replay}), compared
+		}
+		compared++
+	}
+	return fs, compared
+}
+
+// TestVerifC07SQL is stage 2 for the SQL processor: the real decoder over every
+// broker-written segment of the corpus, compared record by record and field by field
+// with what the producers sent - right after decoding, and again after the decoder
+// has been used for every later segment (sequentially and from several goroutines),
+// because consumers (the SQL server's JOIN path) keep the returned records.
 func TestVerifC07SQL(t *testing.T) {
 	r := verifkit.Start(t, "C07", "sql")
-	defer r.Finish("stage 2 (SQL): decodeSegment(segment bytes written by the real broker in stage 1) must return exactly the sent records of that segment, in order: count, offset, timestamp (= batch first timestamp + delta), key, value (null distinct from empty: the decoder's []byte fields can express it), headers (key, value, order); topic/partition echo the arguments; the two predicted timestamp-delta classes are computed from the witness (delta outside zig-zag int32 / needing a >5-byte varint) and every other field keeps being compared; non-trivial = segment holds nulls/empties, headers and a timestamp delta outside int32",
-		"corpus comes from the gen leg of the same run ($VERIF_SCRATCH/c07corpus)")
+	defer r.Finish("stage 2 (SQL): (A) decodeSegment(segment bytes written by the real broker in stage 1) must return exactly the sent records of that segment, in order: count, offset, timestamp (= batch first timestamp + delta), key, value (null distinct from empty: the decoder's []byte fields can express it), headers (key, value, order); topic/partition echo the arguments; the two predicted timestamp-delta classes are computed from the witness (delta outside zig-zag int32 / needing a >5-byte varint) and every other field keeps being compared; (B) the same segments are served by a loopback S3 and decoded through the public entry point (decoder.New(config) -> Decode with its real download path, one decoder for the whole corpus, partition history after partition history); the returned slices are HELD, as a consumer that accumulates records across segments does, and judged with the same oracle three times: when Decode returns, when the partition's last segment has been decoded, and after every segment of every later partition has been decoded; (C) four goroutines share one decoder and decode a PRNG shuffle of all segments concurrently, each re-judging the records it got two calls earlier while the others decode, and everything held is judged again after all goroutines are done; a deviation that only shows in a later judgement is reported as sql_held_<field>; non-trivial = segment holds nulls/empties, headers and a timestamp delta outside int32 (A), partition history of >=2 segments held across >=1 later Decode (B/C)",
+		"corpus comes from the gen leg of the same run ($VERIF_SCRATCH/c07corpus)",
+		"records returned by Decode belong to the caller: nothing the decoder does later may change them (the statement's 'recover exactly the records the producers sent' has no expiry; the SQL server's loadRecords and the sinks keep them across Decode calls)",
+		"a Decode error is only blamed on the decoder when the loopback S3 wrote the object out completely and the context did not expire; otherwise the run is inconclusive")
 	dir := verifc07.CorpusDir()
 	cases, err := verifc07.ReadCorpus(dir)
 	if err != nil {
 		t.Fatalf("harness: %v", err)
 	}
+	var all []*c07SegRef
+	byCase := map[int][]*c07SegRef{}
 	for _, c := range cases {
 		for si, s := range c.Segs {
 			seg, err := verifc07.Load(dir, s.File)
 			if err != nil {
 				t.Fatalf("harness: %v", err)
 			}
-			want := c.SegRecs(si)
-			replay := map[string]any{"case": c.ID, "segment_key": s.Key, "segment_file": s.File, "records_sent": len(want), "seed": r.Seed, "tier": r.Tier}
-			if len(seg) <= 2048 {
-				replay["segment_bytes"] = seg // base64 in the witness: self-contained for small segments
-			}
-			var got []Record
-			var derr error
-			panicked := false
-			func() {
-				defer func() {
-					if p := recover(); p != nil {
-						panicked = true
-						r.Violation("sql_decoder_panics_on_valid_segment", fmt.Sprintf("%s: decodeSegment panicked: %v", s.Key, p), replay)
-					}
-				}()
-				got, derr = decodeSegment(seg, c.Topic, c.Partition)
-			}()
-			r.Count("segments_decoded", 1)
-			nulls, hdrs, bigTS := false, false, false
-			for _, w := range want {
-				nulls = nulls || w.KeyNull || w.ValueNull || len(w.Key) == 0 || len(w.Value) == 0
-				hdrs = hdrs || len(w.Headers) > 0
-				bigTS = bigTS || w.TsDelta >= 1<<31 || w.TsDelta < -(1<<31)
-			}
-			r.Case(fmt.Sprintf("%d/%d/%d", c.ID, si, len(want)), nulls && hdrs && bigTS)
-			if panicked {
+			sr := &c07SegRef{c: c, si: si, s: s, want: c.SegRecs(si), seg: seg}
+			all = append(all, sr)
+			byCase[c.ID] = append(byCase[c.ID], sr)
+		}
+	}
+	var mu sync.Mutex
+	seen := map[string]bool{} // segment id | finding key, reported at an earlier judgement
+	// emit reports the findings of one judgement; held = a judgement after later Decode calls
+	emit := func(sr *c07SegRef, fs []c07Finding, held bool, later int) {
+		mu.Lock()
+		defer mu.Unlock()
+		for _, f := range fs {
+			k := sr.id() + "|" + f.key
+			if seen[k] {
 				continue
 			}
-			if derr != nil {
-				// narrow class for the defect DESIGN.md predicts (timestamp delta read as a 5-byte int32 varint): the segment holds a
-				// delta whose zig-zag varint needs more than 5 bytes AND the decoder says so; anything else is a different class
-				var over *verifc07.Rec
-				for i := range want {
-					if d := want[i].TsDelta; d >= 1<<34 || d < -(1<<34) {
-						over = &want[i]
-						break
-					}
-				}
-				if over != nil && strings.Contains(derr.Error(), "varint too long") {
-					rp := map[string]any{"sent": verifc07.Brief(*over), "error": derr.Error()}
-					for k, v := range replay {
-						rp[k] = v
-					}
-					r.Violation("sql_ts_delta_over_5_byte_varint_segment_rejected", fmt.Sprintf("%s: decodeSegment rejects the whole segment (%d records): %v; record at offset %d has timestamp delta %d", s.Key, len(want), derr, over.Offset, over.TsDelta), rp)
-					r.Count("segments_rejected_for_ts_delta", 1)
-				} else {
-					r.Violation("sql_decode_error_on_valid_segment", fmt.Sprintf("%s: decodeSegment failed on a broker-written segment of %d well-formed records: %v", s.Key, len(want), derr), replay)
-				}
-				continue
+			seen[k] = true
+			cls, sum, rp := f.class, f.summary, f.replay
+			if held {
+				cls = "sql_held_" + strings.TrimPrefix(cls, "sql_")
+				sum = fmt.Sprintf("records returned by Decode no longer equal the sent records after %d later Decode call(s) on the same decoder (this deviation was absent when Decode returned): %s", later, sum)
+				rp = c07With(rp, "later_decode_calls", later)
+				r.Count("held_records_found_changed", 1)
 			}
-			if len(got) != len(want) {
-				r.Violation("sql_record_count", fmt.Sprintf("%s: decoded %d records, producers sent %d", s.Key, len(got), len(want)), replay)
-				continue
-			}
-			for i, w := range want {
-				g := verifc07.Got{Offset: got[i].Offset, Timestamp: got[i].Timestamp, Key: got[i].Key, Value: got[i].Value}
-				for _, h := range got[i].Headers {
-					g.Headers = append(g.Headers, verifc07.GotHdr{Key: h.Key, Value: h.Value})
-				}
-				f, d := verifc07.Compare(w, g)
-				if f == "timestamp" && (w.TsDelta >= 1<<30 || w.TsDelta < -(1<<30)) {
-					// predicted defect, narrow class: only the timestamp is wrong and the delta does not fit a zig-zag int32
-					rp := map[string]any{"sent": verifc07.Brief(w), "record_index": i, "decoded_timestamp": g.Timestamp}
-					for k, v := range replay {
-						rp[k] = v
-					}
-					r.Violation("sql_ts_delta_beyond_int32_varint_garbled", s.Key+": "+d, rp)
-					r.Count("records_ts_garbled", 1)
-					g.Timestamp = w.Timestamp // keep judging the other fields of this and the following records
-					f, d = verifc07.Compare(w, g)
-				}
-				if f != "" {
-					rp := map[string]any{"sent": verifc07.Brief(w), "record_index": i}
-					for k, v := range replay {
-						rp[k] = v
-					}
-					r.Violation("sql_"+f, s.Key+": "+d, rp)
-					break
-				}
-				if got[i].Topic != c.Topic || got[i].Partition != c.Partition {
-					r.Violation("sql_topic_partition", fmt.Sprintf("%s: record labelled %s/%d", s.Key, got[i].Topic, got[i].Partition), replay)
-					break
-				}
-				r.Count("records_compared", 1)
-			}
-			if c.ID < 1 && si == 0 {
-				r.Sample(map[string]any{"segment": s.Key, "records": len(want), "first_sent": verifc07.Brief(want[0]), "first_decoded_offset": got[0].Offset, "first_decoded_timestamp": got[0].Timestamp})
+			r.Violation(cls, sum, rp)
+			switch f.class {
+			case "sql_ts_delta_over_5_byte_varint_segment_rejected":
+				r.Count("segments_rejected_for_ts_delta", 1)
+			case "sql_ts_delta_beyond_int32_varint_garbled":
+				r.Count("records_ts_garbled", 1)
 			}
 		}
 	}
+
+	// ---- stage A: decodeSegment on the bytes, judged at once
+	for _, sr := range all {
+		replay := c07Replay(sr, r.Seed, r.Tier, "decodeSegment")
+		var got []Record
+		var derr error
+		panicked := false
+		func() {
+			defer func() {
+				if p := recover(); p != nil {
+					panicked = true
+					r.Violation("sql_decoder_panics_on_valid_segment", fmt.Sprintf("%s: decodeSegment panicked: %v", sr.s.Key, p), replay)
+				}
+			}()
+			got, derr = decodeSegment(sr.seg, sr.c.Topic, sr.c.Partition)
+		}()
+		r.Count("segments_decoded", 1)
+		nulls, hdrs, bigTS := false, false, false
+		for _, w := range sr.want {
+			nulls = nulls || w.KeyNull || w.ValueNull || len(w.Key) == 0 || len(w.Value) == 0
+			hdrs = hdrs || len(w.Headers) > 0
+			bigTS = bigTS || w.TsDelta >= 1<<31 || w.TsDelta < -(1<<31)
+		}
+		r.Case(fmt.Sprintf("%d/%d/%d", sr.c.ID, sr.si, len(sr.want)), nulls && hdrs && bigTS)
+		if panicked {
+			continue
+		}
+		fs, n := c07Judge(sr, got, derr, replay)
+		emit(sr, fs, false, 0)
+		r.Count("records_compared", int64(n))
+		if sr.c.ID < 1 && sr.si == 0 && derr == nil && len(got) > 0 {
+			r.Sample(map[string]any{"segment": sr.s.Key, "records": len(sr.want), "first_sent": verifc07.Brief(sr.want[0]), "first_decoded_offset": got[0].Offset, "first_decoded_timestamp": got[0].Timestamp})
+		}
+	}
 	r.Floor("records_compared", 500)
+
+	// ---- stages B and C: the public entry point with its real download path, results held
+	for k, v := range verifc07.AWSEnv() {
+		t.Setenv(k, v)
+	}
+	t.Setenv("AWS_CA_BUNDLE", "")
+	os.Unsetenv("AWS_CA_BUNDLE")
+	s3, err := verifc07.StartS3()
+	if err != nil {
+		t.Fatalf("harness: start loopback s3: %v", err)
+	}
+	defer s3.Close()
+	const bucket = "c07"
+	for _, sr := range all {
+		s3.Put(bucket, sr.s.Key, sr.seg)
+	}
+	dec, err := New(config.Config{S3: config.S3Config{Bucket: bucket, Endpoint: s3.Endpoint(), Region: "us-east-1", PathStyle: true}})
+	if err != nil {
+		t.Fatalf("harness: decoder.New: %v", err)
+	}
+	inconclusive := false
+	// decode runs one Decode; ok=false means the call decided nothing (harness/S3/timeout trouble)
+	decode := func(sr *c07SegRef, pass int) (got []Record, derr error, ok bool) {
+		ctx, cancel := context.WithTimeout(context.Background(), 5*time.Minute) // watchdog only
+		defer cancel()
+		func() {
+			defer func() {
+				if p := recover(); p != nil {
+					derr = fmt.Errorf("panic: %v", p)
+					r.Violation("sql_decoder_panics_on_valid_segment", fmt.Sprintf("%s: Decode panicked: %v", sr.s.Key, p), c07Replay(sr, r.Seed, r.Tier, "Decode"))
+					ok = false
+				}
+			}()
+			got, derr = dec.Decode(ctx, sr.s.Key, sr.s.IndexKey, sr.c.Topic, sr.c.Partition)
+			ok = true
+		}()
+		r.Count("decode_calls_through_s3", 1)
+		if ok && derr != nil && (ctx.Err() != nil || s3.Served(bucket, sr.s.Key) < pass) {
+			mu.Lock()
+			inconclusive = true
+			mu.Unlock()
+			r.Inconclusive(fmt.Sprintf("Decode(%s) failed without the loopback S3 having served the object completely (ctx err %v): %v", sr.s.Key, ctx.Err(), derr))
+			return nil, derr, false
+		}
+		return got, derr, ok
+	}
+	rejudge := func(h *c07Held, now int, via string) {
+		if h.err != nil {
+			return
+		}
+		fs, n := c07Judge(h.sr, h.got, nil, c07Replay(h.sr, r.Seed, r.Tier, via))
+		emit(h.sr, fs, true, now-h.callN)
+		r.Count("held_records_compared_after_later_decodes", int64(n))
+	}
+
+	// B: sequential, partition history after partition history
+	var heldB []*c07Held
+	calls := 0
+	for _, c := range cases {
+		first := len(heldB)
+		for _, sr := range byCase[c.ID] {
+			got, derr, ok := decode(sr, 1)
+			calls++
+			if !ok {
+				continue
+			}
+			fs, _ := c07Judge(sr, got, derr, c07Replay(sr, r.Seed, r.Tier, "Decode"))
+			emit(sr, fs, false, 0)
+			heldB = append(heldB, &c07Held{sr: sr, got: got, err: derr, callN: calls})
+		}
+		// the partition is complete (what a JOIN / full scan holds at this point)
+		for _, h := range heldB[first:] {
+			if calls > h.callN {
+				rejudge(h, calls, "Decode, records held until the partition's last segment was decoded")
+			}
+		}
+		r.Case(fmt.Sprintf("hold/%d/%d", c.ID, len(byCase[c.ID])), len(byCase[c.ID]) >= 2)
+	}
+	for _, h := range heldB {
+		if calls > h.callN {
+			rejudge(h, calls, "Decode, records held until every later partition was decoded")
+			r.Count("segments_held_across_later_decodes", 1)
+		}
+	}
+
+	// C: four goroutines share the decoder
+	const workers = 4
+	order := r.Rand(1 << 20).Perm(len(all))
+	heldC := make([][]*c07Held, workers)
+	var callsC int
+	var wg sync.WaitGroup
+	for w := 0; w < workers; w++ {
+		wg.Add(1)
+		go func(w int) {
+			defer wg.Done()
+			for j := w; j < len(order); j += workers {
+				sr := all[order[j]]
+				got, derr, ok := decode(sr, 2)
+				mu.Lock()
+				callsC++
+				n := callsC
+				mu.Unlock()
+				if !ok {
+					continue
+				}
+				fs, _ := c07Judge(sr, got, derr, c07Replay(sr, r.Seed, r.Tier, "Decode (4 goroutines on one decoder)"))
+				emit(sr, fs, false, 0)
+				heldC[w] = append(heldC[w], &c07Held{sr: sr, got: got, err: derr, callN: n})
+				if k := len(heldC[w]); k >= 3 {
+					rejudge(heldC[w][k-3], n, "Decode (4 goroutines on one decoder), records held while this and other goroutines kept decoding")
+				}
+			}
+		}(w)
+	}
+	wg.Wait()
+	for w := range heldC {
+		for _, h := range heldC[w] {
+			if callsC > h.callN {
+				rejudge(h, callsC, "Decode (4 goroutines on one decoder), records held until all goroutines were done")
+				r.Count("segments_held_across_concurrent_decodes", 1)
+			}
+		}
+	}
+	r.Case(fmt.Sprintf("hold-concurrent/%d", len(all)), len(all) >= 2*workers)
+	if bad := s3.Bad(); len(bad) > 0 {
+		r.Inconclusive("loopback S3 received requests it does not implement: " + strings.Join(bad, "; "))
+	}
+	if !inconclusive {
+		r.Floor("held_records_compared_after_later_decodes", 1000)
+		r.Floor("segments_held_across_later_decodes", 20)
+		r.Floor("segments_held_across_concurrent_decodes", 20)
+	}
 }
